@@ -5,8 +5,9 @@ _COMMON_NOTE = ('Trusted: CPython ast, the gtverif engine and the rule tables wr
 
 
 def _t(level, technique, note=''):
-    return {'level': 'Structural necessary conditions decided exactly by custom static analysis for all inputs; the behaviour itself is not decided. ' + level,
-            'technique': technique, 'note': _COMMON_NOTE + note}
+    return {'level': 'Structural necessary conditions decided exactly by custom static analysis for all inputs; the behaviour itself is not decided. ' + level
+            + ' On the call-graph closure of the operations analysed, additionally: no cross-call memo (R-STATE c), identity-bearing encodings injective -- names of composite states, __eq__, look-up keys, input word unmodified (R-INJ), declared NewType sorts State/Symbol/Direction respected (R-SORT).',
+            'technique': technique + ' + nominal sort check of the NewTypes + injectivity algebra for identity encodings, both on the call-graph closure', 'note': _COMMON_NOTE + note}
 
 
 TEXT = {
@@ -16,33 +17,33 @@ TEXT = {
               'abstract interpretation of the enumerator bodies over word lengths (own interpreter in the analyser, concrete n) + dispatch-table and typestate rules'),
     'C03': _t('Decides: subset worklist enqueues exactly unseen subsets, operand untouched, guarded reads. Not decided: language equivalence.',
               'AST worklist-discipline rule + alias/effect summaries'),
-    'C04': _t('Decides: the three refinement loops stop only at a stable partition and register every change; input DFA untouched. Not decided: that the partition is Myhill-Nerode, equivalence, order independence of the language.',
+    'C04': _t('Decides: the three refinement loops stop only at a stable partition and register every change; input DFA untouched. Block representatives: a state joins / a block is named after a comparison with a representative of that same block. Not decided: that the partition is Myhill-Nerode, equivalence, order independence of the language.',
               'flag/snapshot fixpoint must-pass-through on the CFG + effect summaries'),
-    'C05': _t('Decides exactly: every rewrite path of regexp_simplify is a Kleene-algebra identity, does not grow the term and is applied bottom-up. Decides: matcher split ranges / base cases / star recursion, exhaustive dispatch, no memo. Not decided: that the recursive matcher equals the denotation beyond those facts.',
+    'C05': _t('Decides exactly: every rewrite path of regexp_simplify is a Kleene-algebra identity, does not grow the term and is applied bottom-up. Decides: matcher split ranges / base cases / star recursion, exhaustive dispatch, no memo. The parse-tree visitors of both syntaxes build the constructor of each alternative; rewrites done while parsing are Kleene-algebra identities. Not decided: that the recursive matcher equals the denotation beyond those facts.',
               'rewrite rules extracted from the if-chains and decided as Kleene-algebra identities by a derivative-based equivalence procedure in the analyser'),
     'C06': _t('Decides: state names of a translation come from one private generator or a provider whose universe covers the set joined; GNFA start/accept are fresh; the building blocks pass the epsilon their keys use and translate operand epsilons; operands untouched. Not decided: language equality for all expressions and elimination orders.',
               'provenance + universe-coverage rule for introduced names, epsilon def-use agreement, alias/effect summaries'),
     'C07': _t('Decides: the CYK loop-nest schedule for every n <= 12 (each cell written after the cells it reads, reads exactly the splits), diagonal seeding and pair order; CNF typestate of the grammar at every use and CYK call; empty-word guard; CNF recogniser atoms. Not decided: that a cell holds exactly the deriving variables (a semantic fixed point) -- the thinnest claim of the twenty.',
               'index arithmetic of the loop nest extracted and evaluated in the analyser for n <= 12 + forward must-dataflow for the CNF typestate'),
-    'C08': _t('Decides: six pure/in-place twins are paired correctly, input grammar untouched, nullable/unit closures saturated. Not decided: language preservation per phase.',
+    'C08': _t('Decides: six pure/in-place twins are paired correctly, input grammar untouched, nullable/unit closures saturated. The nullable fixpoint is recognised in flag form and in size-snapshot form (snapshot before the growing pass). Not decided: language preservation per phase.',
               'twin-pairing rule (dominance) + effect summaries + fixpoint discipline'),
     'C09': _t('Decides: bounded closure worklist discipline: limit read at call time, counter once per pop, >= limit pops, each configuration enqueued once. Not decided: soundness/completeness of the whole search.',
               'worklist exit-condition rule + def-use of the limit'),
     'C10': _t('Decides: twins of the normal forms deep-copy and call the in-place sibling; pda_to_cfg does not touch its argument. Not decided: language equality.',
               'twin-pairing rule + effect summaries'),
-    'C11': _t('Decides: head sign (left clamped at 0), missing-transition default, blank extension; verdict loop and trace loop agree; step precondition at every call incl. the first; verdicts only on halting states; same budget. Not decided: step-by-step agreement with delta.',
+    'C11': _t('Decides: head sign (left clamped at 0), missing-transition default, blank extension; verdict loop and trace loop agree; step precondition at every call incl. the first; verdicts only on halting states; same budget. Counter abstraction: for budgets 0..3 a never-halting machine is run for exactly max_steps steps on every path of both loops. Not decided: step-by-step agreement with delta.',
               'extracted head-update model evaluated in the analyser + must-hold dataflow for the step precondition + sibling skeleton comparison'),
-    'C12': _t('Decides: K1 no recorded feedback is dropped, K2 OK exclusivity, K3 handlers report, K4 answer/reference roles and message polarity, K5 minimal counterexample, K6 same bound, K7 state-limit polarity. Not decided: completeness of each structural criterion.',
+    'C12': _t('Decides: K1 no recorded feedback is dropped, K2 OK exclusivity, K3 handlers report, K4 answer/reference roles and message polarity, K5 minimal counterexample, K6 same bound, K7 state-limit polarity. K6 also: a bounded comparison called without its bound while the checker has one; K8: answer rows compared position-wise need a row-count comparison; builder state sets are images of the declared ones. Not decided: completeness of each structural criterion.',
               'CFG reachability/kill analysis of feedback accumulators + role taint from notebook templates + extracted integer model'),
-    'C13': _t('Decides: along each chain tag -> generator -> printer -> template variable -> checker parameter -> parser, commands/arity resolve, printed keywords, state-name formats (regular-language inclusion), operator tokens, symbol class and CFG epsilon spelling are inside what the reader accepts. Not decided: that the semantic criterion accepts the generated object.',
+    'C13': _t('Decides: along each chain tag -> generator -> printer -> template variable -> checker parameter -> parser, commands/arity resolve, printed keywords, state-name formats (regular-language inclusion), operator tokens, symbol class and CFG epsilon spelling are inside what the reader accepts. Also: reserved words of each parser have a consumer in its builder; an empty final declaration is accepted (effective default); line-reader delimiters cannot occur in labels; builder state sets are images of the declared ones; visitors build the constructor of each alternative. Not decided: that the semantic criterion accepts the generated object.',
               'template/command table cross-check + regular-language inclusion between writer formats and reader regexes (decided on automata in the analyser)'),
     'C14': _t('Decides: totalisation twin, reachability search discipline, operands untouched / not shared. Not decided: language identities of the constructions.',
               'twin rule + level-synchronous search rule + effect summaries'),
     'C15': _t('Decides: epsilon-path searches terminate and write each backpointer once (acyclic predecessor map). Not decided: legality of each row, derivation order.',
               'worklist first-visit / backpointer rule on CFG guards'),
-    'C16': _t('Decides: keyword agreement, label layout roles/arity/regex length, operator tokens and precedence order vs grammar alternatives, symbol class vs IDENTIFIER, CFG epsilon spelling, generated parser tables vs .g4, declared-vs-empty. Not decided: field-by-field equality of the re-parsed object.',
+    'C16': _t('Decides: keyword agreement, label layout roles/arity/regex length, operator tokens and precedence order vs grammar alternatives, symbol class vs IDENTIFIER, CFG epsilon spelling, generated parser tables vs .g4, declared-vs-empty. Also: reserved words of each parser have a consumer in its builder, an empty final declaration is accepted, line-reader delimiters cannot occur in labels, builder state sets are images of the declared ones, visitors build the constructor of each alternative. Not decided: field-by-field equality of the re-parsed object.',
               'writer/reader table agreement + regex inclusion + grammar cross-check'),
-    'C17': _t('Decides: must-pass-through of every builder check before construction, guard polarity of each check, duplicate-check dominance of every keyword store, validating constructors, invariant atoms, declared-vs-empty, label decoding roles. Not decided: that every ill-formed text is rejected.',
+    'C17': _t('Decides: must-pass-through of every builder check before construction, guard polarity of each check, duplicate-check dominance of every keyword store, validating constructors, invariant atoms, declared-vs-empty, label decoding roles. Also: reserved words have consumers, effective check_non_empty per declaration, line-reader delimiters vs label languages, Q and F handed to the constructor are element-wise images of the declared sets. Not decided: that every ill-formed text is rejected.',
               'CFG dominance / must-pass-through + guard-polarity extraction + sibling agreement of the four builders'),
     'C18': _t('Decides: operands of union/concatenation/star are not mutated at any depth. Not decided: the language identities.',
               'alias/effect summaries'),
